@@ -1,7 +1,7 @@
 (** C13 — header parser: the model of the C reader refines the format specification,
     chunk table invariants, totality.  Only statements; every proof is [exact lemma]. *)
 From ZV Require Import Base.Bytes Gen.GenConsts Format.Compint Format.Header Format.ParseImpl
-                       Format.ParseProofs Format.ParseExamples.
+                       Format.ParseProofs Format.ParseComplete Format.ParseExamples.
 Local Open Scope N_scope.
 
 (** T13.1 whatever the hash function and the pins: an accepted file is accepted by the
@@ -27,6 +27,21 @@ Theorem C13_total : forall (H : N -> bytes -> bytes) p f,
   parse_impl H p f <> POOB /\ parse_impl H p f <> PFuel.
 Proof. exact parse_impl_total. Qed.
 Print Assumptions C13_total.
+
+(** T13.1 converse: every file the format specification accepts is accepted by the model of
+    the reader (without pins) with the same record; no extra hypothesis is needed. *)
+Theorem C13_spec_implies_impl : forall (H : N -> bytes -> bytes) f h,
+  wf_bytes f -> parse_spec H f = Some h -> parse_impl H no_pins f = POk h.
+Proof. exact parse_spec_implies_impl. Qed.
+Print Assumptions C13_spec_implies_impl.
+
+(** Exact decision: the model accepts exactly the files of the specification, with the same
+    record, and refuses all others with a clean error. *)
+Theorem C13_decides : forall (H : N -> bytes -> bytes) f,
+  wf_bytes f ->
+  parse_impl H no_pins f = match parse_spec H f with Some h => POk h | None => PErr end.
+Proof. exact parse_impl_decides. Qed.
+Print Assumptions C13_decides.
 
 (** Non-vacuity: two concrete sealed headers are accepted (hypotheses satisfiable), the
     second with optional elements, uncompressed digests and a two-byte size. *)
